@@ -1,8 +1,8 @@
 #!/bin/bash
-# tools/run_all.sh quick|thorough [seed]   - runs every claimed check, prints one line each
+# tools/run_all.sh quick|thorough [seed]   - runs every claimed check (or those in $CHECKS, e.g. "01 02 15"), prints one line each
 tier=${1:-quick}; export VERIF_SEED=${2:-0}
 cd "$(dirname "$0")/.."
-for i in $(seq -w 1 20); do
+for i in ${CHECKS:-$(seq -w 1 20)}; do
   s=$(date +%s)
   out=$(./vcheck C$i $tier 2>&1); rc=$?
   e=$(( $(date +%s) - s ))
